@@ -2,6 +2,7 @@ import PysamlModel.Core.Proto
 import PysamlModel.Model.Idp
 import PysamlModel.Spec.C09
 import PysamlModel.Gen.IdpDefaults
+import PysamlModel.Gen.SpDefaults
 open Lean Proto Idp
 
 /-- released attributes as the application sees them / as the XML reader reads them (sorted by the harness) -/
@@ -53,12 +54,12 @@ def parseArgs (j : Json) : Args Ava :=
     freshId := "FRESH", freshSession := "SESSION", attrs := parseAva j "attrs" }
 
 def parseSide (j : Json) : C09.SpSide :=
-  let dflt := (obj? j "defaults").getD (Json.mkObj [])
   let b := strD j "binding" "post"
-  { cfg := { wantResp := (bool? j "want_resp").getD (boolD dflt "want_response_signed"),
-             wantAssert := (bool? j "want_assert").getD (boolD dflt "want_assertions_signed"),
-             wantEither := (bool? j "want_either").getD (boolD dflt "want_assertions_or_response_signed"),
-             allowUnsolicited := (bool? j "allow_unsolicited").getD (boolD dflt "allow_unsolicited"),
+  -- options the SP configuration leaves out: attribute_defaults of client_base.Base.__init__ (regenerated)
+  { cfg := { wantResp := (bool? j "want_resp").getD Gen.SpDefaults.wantResponseSigned,
+             wantAssert := (bool? j "want_assert").getD Gen.SpDefaults.wantAssertionsSigned,
+             wantEither := (bool? j "want_either").getD Gen.SpDefaults.wantAssertionsOrResponseSigned,
+             allowUnsolicited := (bool? j "allow_unsolicited").getD Gen.SpDefaults.allowUnsolicited,
              skew := natD j "skew" 0, entityId := strD j "entity_id", returnAddrs := strList j "return_addrs" },
     env := { now := intD j "now", bindingOk := b != "paos", asynchop := !(b == "soap" || b == "paos"),
              outstanding := parsePairs j "outstanding" },
